@@ -763,7 +763,7 @@ fn bend_project(rng: &mut Rng, p: &mut Project) -> Vec<String> {
         .filter(|i| matches!(p.items[*i].kind, ItemKind::Enum { .. }))
         .collect();
     for _ in 0..rng.range(1, 3) {
-        let what = rng.below(16);
+        let what = rng.below(17);
         match what {
             0..=10 if !types.is_empty() => {
                 let i = *rng.pick(&types);
@@ -1010,6 +1010,60 @@ fn bend_project(rng: &mut Rng, p: &mut Project) -> Vec<String> {
                         done.push("knob:enum_flags".to_string());
                     }
                 }
+            }
+            15 => {
+                // A wide type: dozens of fields, some with addresses (ascending or not), some
+                // without.
+                use crate::project::{Flags, Item};
+                let m = rng.below(p.modules.len());
+                let idx = p.items.len();
+                let n = rng.range(18, 48);
+                let ascending = rng.chance(1, 2);
+                let mut at = 0usize;
+                let fields: Vec<Field> = (0..n)
+                    .map(|k| {
+                        let address = if rng.chance(1, 2) {
+                            Some(if ascending {
+                                at
+                            } else {
+                                rng.below(n * 8)
+                            })
+                        } else {
+                            None
+                        };
+                        at += 4;
+                        Field {
+                            vis: true,
+                            name: format!("w{k}"),
+                            ty: Ty::Prim(if rng.chance(1, 2) { "u32" } else { "u8" }),
+                            address,
+                            base: false,
+                            doc: None,
+                        }
+                    })
+                    .collect();
+                p.items.push(Item {
+                    module: m,
+                    name: format!("Wide{idx}"),
+                    vis: true,
+                    doc: None,
+                    kind: ItemKind::Type {
+                        fields,
+                        vftable: None,
+                        size: None,
+                        align: Some(4),
+                        packed: rng.chance(1, 2),
+                        flags: Flags::default(),
+                        singleton: None,
+                        impl_funcs: vec![],
+                        semicolon_form: false,
+                    },
+                    csize: 0,
+                    calign: 1,
+                    vslots: None,
+                });
+                p.modules[m].order.push(Decl::Item(idx));
+                done.push("knob:wide_type".to_string());
             }
             14 => {
                 // An impl block for something that is not a type (an enum, an extern type).
